@@ -14,6 +14,9 @@ CONSTANTS
   OutCap = 15
   Eager = FALSE
   MaxCtlQ = 1000
+  RstCodes = {8, 2}
+  Promised = {2, 4}
+  Pings = {1, 2}
   BugContES = FALSE
   BugPadCredit = FALSE
   EncodeAtEnqueue = FALSE
